@@ -417,6 +417,7 @@ func runFH(tb stat.TB, c fhCase, id, check string) {
 					continue
 				}
 				pre = liveNow()
+				beforeRD := fm.Count() // (ensureDir may have allocated: count again right before the request)
 				r := s.nfs(nfsx.ProcReaddirplus, nfsx.ArgsReaddirplus(dirFh[op.Dir], 0, [8]byte{}, 1<<16, 1<<16))
 				if r.Status != nfsx.OK {
 					continue
@@ -438,7 +439,7 @@ func runFH(tb stat.TB, c fhCase, id, check string) {
 				// this same reply, so "same value while live" is only judged when the
 				// request could not have evicted anything.
 				preRD := pre
-				if before+len(r.Entries) > effMax {
+				if beforeRD+len(r.Entries) > effMax {
 					preRD = nil
 				}
 				for _, e := range r.Entries {
